@@ -32,6 +32,7 @@ var c11Msgs = [][]c11Seg{
 	{{2, "<a href=\"/x\">"}, {1, "$b"}, {2, "</a>"}, {0, " or "}, {2, "<a href=\"/y\">"}, {1, "$a"}, {2, "</a>"}},
 	{{1, "$b|truncate:1"}, {0, " / "}, {1, "$b|truncate:4"}, {0, " / "}, {1, "$b|truncate:1"}},
 	{{0, "set {lb}"}, {1, "$a"}, {0, ", "}, {1, "$b"}, {0, "{rb} {lb}{rb} end"}},
+	{{2, "<paper-button raised>"}, {1, "$b"}, {2, "</paper-button>"}, {0, " "}, {2, "<svg:rect/>"}, {2, "<x_y>"}},
 }
 
 func c11MsgSrc(segs []c11Seg) string {
